@@ -168,6 +168,9 @@ func (p *provider) watchChanges(ctx context.Context, rsf RuleSetFetcher) error {
 		if errors.Is(err, heimdall.ErrInternal) || errors.Is(err, heimdall.ErrConfiguration) {
 			return err
 		}
+
+		// communication issues: the rule sets received from that bucket so far are preserved
+		return nil
 	}
 
 	state := p.getBucketState(rsf.ID())
